@@ -86,6 +86,13 @@ func (e *Engine) invoke(st *State, fv Value, args []Value, rk retKind, c *ssa.Ca
 		name = stub.String()
 		key = name
 	}
+	for _, pre := range e.noops {
+		if strings.HasPrefix(name, pre) {
+			e.rep.Models["no-op stub for "+pre+"*"]++
+			e.finishCall(st, rk, zeroResults(e, fn))
+			return
+		}
+	}
 	if fn.Pkg != nil && fn.Pkg.Pkg.Path() == vrPkg {
 		res := e.intrinsic(st, fn.Name(), args, c)
 		e.finishCall(st, rk, res)
@@ -95,6 +102,9 @@ func (e *Engine) invoke(st *State, fv Value, args []Value, rk retKind, c *ssa.Ca
 		e.rep.Models["model "+key]++
 		res := m(e, st, args, c)
 		if res == (Value)(sigPushed{}) {
+			if top := st.top(); top.native != nil {
+				top.ret = rk // the native continuation answers this call
+			}
 			return
 		}
 		e.finishCall(st, rk, res)
